@@ -104,6 +104,9 @@ class RTDCWriter:
                                     mode=("w" if mode == "reset" else "a"))
         #: unfortunate necessity, as `len(h5py.Group)` can be really slow
         self._group_sizes = {}
+        #: number of valid (non-nan) values of scalar datasets; required
+        #: for updating the "mean" attribute when data are appended
+        self._valid_counts = {}
 
     def __enter__(self):
         return self
@@ -840,15 +843,27 @@ class RTDCWriter:
                 else:
                     val = ufunc(dset)
                 dset.attrs[uname] = val
-            # store ufunc data for mean (weighted with size)
+            # store ufunc data for mean (weighted with the number of
+            # valid, i.e. non-nan, values)
             mean_a = dset.attrs.get("mean", None)
             if mean_a is not None:
-                num_a = offset
-                mean_b = np.nanmean(data)
-                num_b = data.size
-                mean = (mean_a * num_a + mean_b * num_b) / (num_a + num_b)
+                if dset.name not in self._valid_counts:
+                    self._valid_counts[dset.name] = \
+                        offset - np.sum(np.isnan(dset[:offset]))
+                num_a = self._valid_counts[dset.name]
+                num_b = data.size - np.sum(np.isnan(data))
+                if num_b == 0:
+                    mean = mean_a
+                elif num_a == 0:
+                    mean = np.nanmean(data)
+                else:
+                    mean_b = np.nanmean(data)
+                    mean = (mean_a * num_a + mean_b * num_b) / (num_a + num_b)
+                self._valid_counts[dset.name] = num_a + num_b
             else:
                 mean = np.nanmean(dset)
+                self._valid_counts[dset.name] = \
+                    dset.shape[0] - np.sum(np.isnan(dset))
             dset.attrs["mean"] = mean
         else:
             chunk_size = dset.chunks[0]
